@@ -3,6 +3,13 @@
   reformat   ast.unparse(ast.parse(src)) of every consulted module (all positions and layout change)
   rename     every local variable of every analysed function is renamed v -> v_rn (parameters, globals, attributes,
              keywords and names captured/rebound by nested scopes are left alone)
+  invert_if  every `if c: A else: B` (else present, not an elif chain) becomes `if not (c): B else: A`
+  flip_cmp   every single comparison of call-free operands is mirrored: a < b -> b > a, a == b -> b == a, ...
+  kwargs     the keyword arguments of every call (no ** argument) are written in reverse order
+  noop       a statement `_verif_noop = None` is inserted at the top of every function (every statement index and line moves)
+  dedent_else  `if c: ...; return/raise/continue/break  else: B` becomes `if c: ...` followed by B (no else after a jump)
+  extract    in every function, the first call-valued argument of a call statement whose earlier operands are call-free is
+             computed into a fresh local first: `r = f(a, g(b))` -> `_xt1 = g(b); r = f(a, _xt1)`
 """
 from __future__ import annotations
 
@@ -74,7 +81,155 @@ def reformat(src: str) -> str:
     return ast.unparse(ast.parse(src))
 
 
-def run(prop):
+class _InvertIf(ast.NodeTransformer):
+    def visit_If(self, node):
+        self.generic_visit(node)
+        if node.orelse and not (len(node.orelse) == 1 and isinstance(node.orelse[0], ast.If)):
+            t = node.test
+            if isinstance(t, ast.UnaryOp) and isinstance(t.op, ast.Not):
+                nt = t.operand
+            else:
+                nt = ast.UnaryOp(op=ast.Not(), operand=t)
+            return ast.copy_location(ast.If(test=nt, body=node.orelse, orelse=node.body), node)
+        return node
+
+
+_MIRROR = {ast.Lt: ast.Gt, ast.Gt: ast.Lt, ast.LtE: ast.GtE, ast.GtE: ast.LtE, ast.Eq: ast.Eq, ast.NotEq: ast.NotEq}
+
+
+class _FlipCmp(ast.NodeTransformer):
+    def visit_Compare(self, node):
+        self.generic_visit(node)
+        if len(node.ops) == 1 and type(node.ops[0]) in _MIRROR:
+            a, b = node.left, node.comparators[0]
+            if not any(isinstance(x, (ast.Call, ast.NamedExpr, ast.Await, ast.Yield)) for e in (a, b) for x in ast.walk(e)):
+                return ast.copy_location(ast.Compare(left=b, ops=[_MIRROR[type(node.ops[0])]()], comparators=[a]), node)
+        return node
+
+
+class _Kwargs(ast.NodeTransformer):
+    def visit_Call(self, node):
+        self.generic_visit(node)
+        if len(node.keywords) >= 2 and all(k.arg is not None for k in node.keywords) and \
+                not any(isinstance(x, (ast.Call, ast.NamedExpr)) for k in node.keywords for x in ast.walk(k.value)):
+            node.keywords = list(reversed(node.keywords))
+        return node
+
+
+class _Noop(ast.NodeTransformer):
+    def visit_FunctionDef(self, node):
+        self.generic_visit(node)
+        stmt = ast.Assign(targets=[ast.Name(id="_verif_noop", ctx=ast.Store())], value=ast.Constant(value=None))
+        i = 1 if node.body and isinstance(node.body[0], ast.Expr) and isinstance(node.body[0].value, ast.Constant) and isinstance(node.body[0].value.value, str) else 0
+        node.body.insert(i, stmt)
+        return node
+
+
+def _dedent_block(stmts):
+    out = []
+    for s in stmts:
+        for fld in ("body", "orelse", "finalbody"):
+            b = getattr(s, fld, None)
+            if isinstance(b, list) and b and isinstance(b[0], ast.stmt):
+                setattr(s, fld, _dedent_block(b))
+        for h in getattr(s, "handlers", []) or []:
+            h.body = _dedent_block(h.body)
+        if isinstance(s, ast.If) and s.orelse and s.body and isinstance(s.body[-1], (ast.Return, ast.Raise, ast.Continue, ast.Break)):
+            tail = s.orelse
+            s.orelse = []
+            out.append(s)
+            out.extend(tail)
+        else:
+            out.append(s)
+    return out
+
+
+class _DedentElse(ast.NodeTransformer):
+    def visit_FunctionDef(self, node):
+        self.generic_visit(node)
+        node.body = _dedent_block(node.body)
+        return node
+
+
+class _Extract(ast.NodeTransformer):
+    def visit_FunctionDef(self, node):
+        self.generic_visit(node)
+        self.k = 0
+        node.body = self._block(node.body)
+        return node
+
+    def _block(self, stmts):
+        out = []
+        for s in stmts:
+            for fld in ("body", "orelse", "finalbody"):
+                b = getattr(s, fld, None)
+                if isinstance(b, list) and b and isinstance(b[0], ast.stmt) and not isinstance(s, (ast.FunctionDef, ast.AsyncFunctionDef, ast.ClassDef)):
+                    setattr(s, fld, self._block(b))
+            for h in getattr(s, "handlers", []) or []:
+                h.body = self._block(h.body)
+            call = None
+            if isinstance(s, (ast.Assign, ast.Expr, ast.Return, ast.AugAssign)) and isinstance(getattr(s, "value", None), ast.Call):
+                call = s.value
+            if call is not None and not any(isinstance(a, ast.Starred) for a in call.args) and all(k.arg is not None for k in call.keywords):
+                simple = lambda e: not any(isinstance(x, (ast.Call, ast.NamedExpr, ast.Await, ast.Yield, ast.YieldFrom, ast.Lambda, ast.ListComp, ast.SetComp,
+                                                          ast.DictComp, ast.GeneratorExp)) for x in ast.walk(e))
+                if simple(call.func) and (not isinstance(s, ast.Assign) or all(simple(t) for t in s.targets)):
+                    operands = [("a", i, a) for i, a in enumerate(call.args)] + [("k", i, k.value) for i, k in enumerate(call.keywords)]
+                    for kind, i, e in operands:
+                        if isinstance(e, ast.Call) and simple(e.func) and all(simple(a) for a in e.args) and all(simple(k.value) for k in e.keywords):
+                            self.k += 1
+                            name = f"_xt{self.k}"
+                            out.append(ast.copy_location(ast.Assign(targets=[ast.Name(id=name, ctx=ast.Store())], value=e), s))
+                            ref = ast.copy_location(ast.Name(id=name, ctx=ast.Load()), e)
+                            if kind == "a":
+                                call.args[i] = ref
+                            else:
+                                call.keywords[i].value = ref
+                            break
+                        if not simple(e):
+                            break
+            out.append(s)
+        return out
+
+
+def transform(src: str, T) -> str:
+    tree = T().visit(ast.parse(src))
+    ast.fix_missing_locations(tree)
+    return ast.unparse(tree)
+
+
+REWRITES = {
+    "reformat": lambda src, fn: reformat(src),
+    "rename": lambda src, fn: rename_locals(src, fn),
+    "invert_if": lambda src, fn: transform(src, _InvertIf),
+    "flip_cmp": lambda src, fn: transform(src, _FlipCmp),
+    "kwargs": lambda src, fn: transform(src, _Kwargs),
+    "noop": lambda src, fn: transform(src, _Noop),
+    "dedent_else": lambda src, fn: transform(src, _DedentElse),
+    "extract": lambda src, fn: transform(src, _Extract),
+}
+
+
+def _one(args):
+    prop, kind, mods_src, funcs, basekeys = args
+    sys.path.insert(0, os.path.dirname(os.path.dirname(os.path.dirname(os.path.abspath(__file__)))))
+    from sa.core.program import Program, AnalysisError
+    from sa.check import analyse
+    ov = {}
+    try:
+        for m, (relpath, src) in mods_src.items():
+            ov[relpath] = REWRITES[kind](src, funcs.get(m))
+            compile(ov[relpath], relpath, "exec")
+        ctx = analyse(prop, "quick", Program(overrides=ov))
+        new = sorted(f.key for f in ctx.findings if f.key not in basekeys)
+        return kind, {"alarms": new, "error": None}
+    except AnalysisError as e:
+        return kind, {"alarms": [], "error": str(e)}
+    except Exception as e:
+        return kind, {"alarms": [], "error": f"internal: {type(e).__name__}: {e}"}
+
+
+def run(prop, only=None):
     sys.path.insert(0, os.path.dirname(os.path.dirname(os.path.dirname(os.path.abspath(__file__)))))
     from sa.core.program import Program, AnalysisError, REPO
     from sa.check import analyse
@@ -85,27 +240,17 @@ def run(prop):
     for q in base.functions_analysed:
         m, f = q.split(":")
         funcs.setdefault(m, set()).add(f.split(".")[-1].split("#")[0])
-    out = {}
-    for kind in ("reformat", "rename"):
-        ov = {}
-        for m in mods:
-            mod = base.prog.modules.get(m)
-            if mod is None:
-                continue
-            src = mod.source
-            ov[mod.relpath] = reformat(src) if kind == "reformat" else rename_locals(src, funcs.get(m))
-            compile(ov[mod.relpath], mod.relpath, "exec")
-        try:
-            ctx = analyse(prop, "quick", Program(overrides=ov))
-            new = sorted(f.key for f in ctx.findings if f.key not in basekeys)
-            out[kind] = {"alarms": new, "error": None}
-        except AnalysisError as e:
-            out[kind] = {"alarms": [], "error": str(e)}
+    mods_src = {m: (base.prog.modules[m].relpath, base.prog.modules[m].source) for m in mods if m in base.prog.modules}
+    import multiprocessing as mp
+    kinds = [k for k in REWRITES if only is None or k in only]
+    with mp.Pool(min(8, len(kinds))) as pool:
+        res = pool.map(_one, [(prop, k, mods_src, funcs, basekeys) for k in kinds])
+    out = dict(res)
     return out
 
 
 if __name__ == "__main__":
     import json
-    for p in sys.argv[1:]:
-        r = run(p)
+    for p in [a for a in sys.argv[1:] if a.startswith("C")]:
+        r = run(p, only=[a for a in sys.argv[1:] if not a.startswith("C")] or None)
         print(p, json.dumps(r)[:1500])
